@@ -30,21 +30,21 @@ import (
 var harnessFS embed.FS
 
 type worldResult struct {
-	Seed      uint64
-	Spec      *Spec
-	Rejected  bool   // goverter refused the world (not a violation)
-	RejectMsg string
-	Failed    bool
-	Output    string
-	FailFile  string
-	Stats     map[string]any
-	BuildErr  error
-	Dir       string
-	NoErrOK   bool // generation-time clause checked and held
-	NoErrViol string
+	Seed             uint64
+	Spec             *Spec
+	Rejected         bool // goverter refused the world (not a violation)
+	RejectMsg        string
+	Failed           bool
+	Output           string
+	FailFile         string
+	Stats            map[string]any
+	BuildErr         error
+	Dir              string
+	NoErrOK          bool // generation-time clause checked and held
+	NoErrViol        string
 	OptionalStripped string
-	RaceRan    bool
-	RaceReport string
+	RaceRan          bool
+	RaceReport       string
 }
 
 func goRun(dir string, env []string, name string, args ...string) (string, error) {
@@ -172,6 +172,14 @@ func (s *Spec) TestSource() string {
 		}
 		if len(rs) > 0 {
 			fmt.Fprintf(&b, "\t\t\"S%d\": {%s},\n", id, strings.Join(rs, ", "))
+		}
+	}
+	b.WriteString("\t},\n\tAutoMap: map[string]map[string]bool{\n")
+	for _, id := range sortedIDs(s.Structs) {
+		for _, f := range s.Structs[id].Fields {
+			if f.SOnly {
+				fmt.Fprintf(&b, "\t\t\"S%d\": {%q: true},\n", id, f.Name)
+			}
 		}
 	}
 	b.WriteString("\t},\n\tLeafFn: map[string]string{\n")
@@ -664,13 +672,13 @@ func Check(id, tier string, seed uint64, repo, vd string) (*gensim.Outcome, erro
 		"distinct_nontrivial": int64(distinct[pfx+"nontrivial"]),
 		"worlds_run":          ran,
 		"worlds_rejected_by_goverter_or_not_compiling": rejected,
-		"rejection_samples":   rejectSamples,
-		"world_kinds":         formats,
-		"counters":            counters,
-		"distinct_sets":       distinct,
-		"executions_per_hour": int64(float64(execs) / wall * 3600),
-		"simulated_time":      "none: generated converters never read a clock or block; progress is measured in scheduler steps / custom-function calls",
-		"samples":             samples,
+		"rejection_samples":                            rejectSamples,
+		"world_kinds":                                  formats,
+		"counters":                                     counters,
+		"distinct_sets":                                distinct,
+		"executions_per_hour":                          int64(float64(execs) / wall * 3600),
+		"simulated_time":                               "none: generated converters never read a clock or block; progress is measured in scheduler steps / custom-function calls",
+		"samples":                                      samples,
 		"real_vs_stub": map[string]any{
 			"real": []string{"unmodified goverter built from /repo's working tree generates the converters", "the emitted converter code (with range-over-map redirected to verifsim.Seq2 and, for C04, a yield before every statement)", "Go runtime, reflect"},
 			"stub": []string{"scheduler choosing among caller goroutines (exactly one runnable)", "map iteration order inside generated code", "user custom functions (harness-written, failing on command)", "the user's wrapErrorsUsing package (records Wrap calls)"},
